@@ -34,6 +34,12 @@ Gain(kind, cap, promo) ==
 MVVLVA(kind, piece, cap, promo) ==
   LET g == 100 * Gain(kind, cap, promo) IN IF g > 0 THEN g - Nominal(piece) ELSE 0
 
+\* the score of a UCI info line for a decided score: mate in MOVES (plies rounded up), negative when the
+\* side to move is being mated, 0 when the game is already over (t: "M" with m plies, "W" won, "L" lost)
+UciMateMoves(t, m) ==
+  LET x == CASE t = "W" -> 1 [] t = "L" -> -1 [] OTHER -> IF m > 0 THEN m + 1 ELSE m - 1
+  IN IF x >= 0 THEN x \div 2 ELSE 0 - ((0 - x) \div 2)
+
 \* a sequence `out' is the sequence `in' handed out by priority: a permutation, priorities non-increasing
 IsPermutation(in, out) ==
   /\ Len(in) = Len(out)
